@@ -21,7 +21,7 @@ LEVEL = "translation_validation"
 REQUIRED_THEOREMS = [
     "eval_compositional", "eval_subst", "alias_replacement_sound", "prepare_sound",
     "signature_order_irrelevant_for_named_env", "consts_as_partial_application", "exprFunction_spec",
-    "diff_sound", "heaviside_semantics", "tensor_eval_componentwise", "gradient_sound",
+    "diff_sound", "heaviside_semantics", "tensor_eval_componentwise", "eval_pointwise", "gradient_sound",
 ]
 RULE = ("programs = expression texts drawn by a type-directed (interval-typed) random generator over the whole "
         "grammar (numbers incl. decimal/scientific, variables, constants, indexed symbols, + - * / **, unary minus, "
@@ -238,6 +238,11 @@ def gen_scalar_program(rng, i, jit):
     finish_program(rng, prog, e_txt, declared)
     fr = not top_cmp and not indexed_var and X.in_diff_fragment(prog["ast"]) and not voc.ufuncs
     prog["diff"] = [l[0] for l in sig if l[0] in variables] if fr else []
+    # parse_number knows neither user functions nor the heaviside substitution nor indexed symbols
+    kinds_ = X.kinds(prog["ast"])
+    prog["parse_number"] = (not voc.ufuncs and not prog["indexed"] and not array_consts and not sig_none and
+                            not (kinds_ & {"heav1", "heav2", "idx"}) and not any(k.startswith("cmp") for k in kinds_)
+                            and not (set(names) & RESERVED) and rng.random() < 0.5)
     return prog
 
 
@@ -673,6 +678,24 @@ def _run_program(prog, obs, errs):
         guarded("numpy", r_numpy)
         if kind == "malformed":
             return
+        if prog.get("parse_number") and n_sc:
+            # `parse_number(text, variables)`: the same text as a number, all symbols substituted
+            def r_parse_number():
+                from pde.tools.expressions import parse_number
+
+                names = [l for l in prog["sig"]]
+                for i in range(min(n_sc, 2)):
+                    variables = dict(prog["consts"])
+                    for entry, a in zip(names, prog["points"][i]):
+                        for nm in entry:
+                            variables[nm] = a
+                    for alias, nm in prog["repl"].items():
+                        if nm in variables:
+                            variables[alias] = variables[nm]
+                    with _sympy_time_limit():
+                        v = parse_number(text, variables)
+                    record("parse_number", i, v)
+            guarded("parse_number", r_parse_number)
         all_scalar = all(not isinstance(a, list) for pt in prog["points"] for a in pt) and prog["sig"]
 
         def r_single():
